@@ -120,6 +120,19 @@ class Cx:
             r = z3.And(z3.Not(n), r)
         return r
 
+    def approx(self, leaf, ref, rel=1e-12):
+        """Obligation 'leaf equals ref up to a relative error' (used where a float literal such as 0.01 is not exact)."""
+        if isinstance(leaf, Raised) or leaf is None or not self.finite(leaf):
+            return z3.BoolVal(False)
+        t = self.t(leaf)
+        n, d = float(rel).as_integer_ratio()
+        eps = z3.Q(n, d)
+        dlt = t - ref
+        mag = z3.If(ref >= 0, ref, -ref)
+        r = z3.And(dlt <= eps * mag, -dlt <= eps * mag)
+        nn = self.isnan(leaf)
+        return r if z3.is_false(nn) else z3.And(z3.Not(nn), r)
+
     def is_nan_leaf(self, leaf):
         """Obligation 'leaf reads NaN'."""
         if isinstance(leaf, Raised) or leaf is None:
